@@ -396,7 +396,48 @@ def _mgr_tfs(sc, names):
     return [hx.get("timeframe") if n == "default" else n for n in (names or ["default"])]
 
 
+def record_scale(sc):
+    """C07 at scale: one single-candle append measured at two history lengths (no state projected)"""
+    import workrec
+
+    tfs = [c.timeframe for c in sc["inds"]]
+    base = base_for([t for t in tfs if t])
+    wk = []
+    exc = ""
+    ses = None
+    for hist in sc["scale"]:
+        ses = Session(sc, base)
+        try:
+            ses.run(("new", hist))
+            ses.obj.calculate()
+            rec = workrec.Recorder()
+            rec.start(ses)
+            try:
+                ses.run(("append", hist + 1, hist + 1))
+            finally:
+                w = rec.stop(ses)
+            w["hist"] = hist
+            wk.append(w)
+        except Exception as e:
+            exc = type(e).__name__
+            break
+    while len(wk) < 2:
+        wk.append({"j": 1, "calls": [], "minread": -1, "lines": 0, "hist": 0})
+    c = sc["inds"][0]
+    if sc["obj"] == "ind":
+        mg = [mgr_cfg("default", c.timeframe, c.fill, c.lifespan, c.ctype)]
+        inds = [dict(c.spec(ses.live.get(0, "") if ses else ""), act=1)]
+    else:
+        mg = [mgr_cfg("default", None, False, None, None)]
+        inds = [dict(x.spec(ses.live.get(i, "") if ses else ""), act=1) for i, x in enumerate(sc["inds"])]
+    ev = {"op": "scale", "a": 0, "b": 0, "nm": "", "idx": 0, "exc": exc, "bt": [], "ob": {"at": [], "ai": 0},
+          "rd": [], "ab": [], "aa": [], "wk": wk, "m": [{"drop": 0, "len": 0, "d": []}]}
+    return {"id": sc["id"], "fam": sc["fam"], "mg": mg, "ind": inds, "mute": [], "raw": [], "ev": [ev]}
+
+
 def record(sc):
+    if sc.get("scale"):
+        return record_scale(sc)
     tfs = [c.timeframe for c in sc["inds"] + sc.get("late", [])] + [sc.get("hex", {}).get("timeframe")]
     base = base_for([t for t in tfs if t])
     if sc.get("base"):
